@@ -27,3 +27,10 @@ example : rndMag f64 (2 ^ 1054) 0 = some (2 ^ 1054) ∧
 example : shapesCompatible [5] [5, 1] = true ∧ shapesCompatible [5] [5, 1, 1] = false := by decide
 
 end Fc
+
+namespace Fc
+open Spec
+-- hypotheses of the slack theorem are satisfiable: 1.0 vs 1.0 + 2^-20 with rel = 2^-20
+example : rndMag f64 (max (2 ^ 1074 : Int).natAbs (2 ^ 1074 + 2 ^ 1054 : Int).natAbs * 2 ^ 1054) UNIT ≠ none ∧
+    docFormula f64 (2 ^ 1074) (2 ^ 1074 + 2 ^ 1054) (2 ^ 1054) 0 = true := by decide +kernel
+end Fc
